@@ -356,5 +356,58 @@ CHECKS["C14"] = {
           "are not traced; only the cwd-rooted invocation is explored (no multiple roots).",
 }
 
+CHECKS["C03"] = {
+  "text": "Theorems for all byte strings and all non-empty variant lists about the Lean transliteration of pattern.rs "
+          "(alternation ordered by escaped length, leftmost-first scan, is_boundary byte for byte, line/column, identify_variant): "
+          "every match is non-empty, in range, its span holds exactly a variant (= recorded text and variant), matches are "
+          "ascending and pairwise disjoint, line = 1 + newlines before, column = distance from the last newline, spans lie on "
+          "character boundaries (valid UTF-8 content, ASCII variants), the matches satisfy the guard of the apply loop "
+          "(Edits.Consistent, hence apply = left-to-right splice: link to C02), leftmost-first over escaped-length order IS "
+          "leftmost-longest (unconditionally), (line, column) identifies a match, the line-th element of lines_with_terminator is "
+          "the line containing the match, counters add up. Literal planner (process_file_content): every hunk's text stands at "
+          "its recorded offsets in the (lossily decoded) file — selected by a flag regenerated from scanner.rs (true since d278bf5; "
+          "the line-1-only theorem and the kernel-evaluated before-fix witness remain). Several search roots: with the "
+          "de-duplication by real location (4d2e5a7) every reached file is planned once and (file, line, column) identifies a hunk "
+          "of the whole plan. Every run compares the model with the real build_pattern/find_matches/is_boundary/create_simple_plan "
+          "and recomputes line_before/line_after/char_offset/byte_offset of every hunk of real plans in the model; an independent "
+          "oracle checks every field of every hunk of plan / rename --dry-run / search / replace (literal, regex) plans against the "
+          "bytes on disk (text at offsets, order, disjointness, boundaries, line, column, char_offset, line context, counts) over "
+          "style/acronym/plural/atomic/exclude options and default/one/file/several/nested/repeated roots.",
+  "design_ref": "DESIGN.md section 4, C03",
+  "technique": "Lean 4 proof (induction over the leftmost-first scan, line lists and edit lists; UTF-8 step analysis) + translator "
+               "(replace offsets flag) + differential correspondence (matcher, literal planner, hunk geometry of real plans) + "
+               "plan-vs-file-bytes oracle on all planner entry points",
+  "note": TB + "regex / aho-corasick leftmost-first semantics as written in RModel.Model.Matcher (compared on every run; empty "
+          "variants excluded, the variant table has none); user regexes of `replace` and the compound matcher are not modelled "
+          "(their plans are judged by the oracle and the geometry recomputation only); the boundary theorem is proved for ASCII "
+          "variants; the multi-root theorem takes the walker's entry list and canonical locations as given (C09); the line-context "
+          "theorems (line_geometry, C15) need the line to be valid UTF-8 up to the match — on other lines the raw column is "
+          "applied to the lossily decoded line (finding invalid_utf8_line_context, reproduced by the model; before ac203f2 a "
+          "panic, kept as hunkGeomAtOld); checked-vs-unchecked slicing is tied to the code by the hostile-plan correspondence, "
+          "not by a generated flag.",
+}
+CHECKS["C15"] = {
+  "text": "Theorems for valid-UTF-8 lines and hunks consistent with the line (which C03 proves of case-aware plans): line_before is "
+          "the file's line; line_after is the column splice of that one match and the find() fallback is unreachable; for any "
+          "number of consistent non-empty hunks on a line the `+` text of render_diff (line_after for one hunk, the stable "
+          "right-to-left merge by byte_offset for several) equals the left-to-right splice of the line, with length-changing "
+          "replacements, multi-byte text before the matches and CR-LF; at file level the applied file is (lines before, edited) ++ "
+          "that text ++ (lines after, edited), and for newline-free texts/replacements the block `@@ line n @@` shows exactly line n "
+          "of the file after apply while line n of the original is the `-` side. Kernel-evaluated theorems show what each hypothesis "
+          "is for (duplicate/overlapping hunks, newline in a replacement, column inside a character, line-relative offsets read as "
+          "file offsets), the first and last being the real defects repaired by 4d2e5a7 and d278bf5. Every run compares the model's "
+          "merge with the parsed output of the real render_plan(Diff) on real plans and on hostile hand-made plans, checks every "
+          "preview block and single-hunk line_after against the reference splice of the plan, and on CLI plan -> apply runs "
+          "against the files the real apply wrote.",
+  "design_ref": "DESIGN.md section 4, C15",
+  "technique": "Lean 4 proof (induction over hunk lists reusing the C02 splice theorem; line/offset algebra) + differential "
+               "correspondence with render_plan(Diff) + preview-vs-apply oracle (reference splice and real apply)",
+  "note": TB + "lines must be valid UTF-8 (otherwise generate_hunks panics: C16); similar's line differ is not modelled — it also "
+          "breaks at a lone CR and only '\\n' is trimmed, so blocks are compared after re-joining their lines (CR-LF vs lone CR is "
+          "not distinguished); only the uncoloured diff and the plan JSON are in scope (table/matches/summary previews and ANSI "
+          "colouring are not); the literal planner quotes lines without terminator, accepted by the oracle; 'apply' in the "
+          "theorems is Edits.applyEdits/spec, tied to apply.rs by C02's correspondence and by the CLI runs here.",
+}
+
 _W = "check built and passing before the latest repo fix commits; temporarily withdrawn while its Lean model is updated to the repaired code"
 PENDING.update({"C12": _W, "C04": _W, "C17": _W, "C19": _W})
